@@ -1,0 +1,39 @@
+// Licensed to Elasticsearch B.V. under one or more contributor
+// license agreements. See the NOTICE file distributed with
+// this work for additional information regarding copyright
+// ownership. Elasticsearch B.V. licenses this file to you under
+// the Apache License, Version 2.0 (the "License"); you may
+// not use this file except in compliance with the License.
+// You may obtain a copy of the License at
+//
+//     http://www.apache.org/licenses/LICENSE-2.0
+//
+// Unless required by applicable law or agreed to in writing,
+// software distributed under the License is distributed on an
+// "AS IS" BASIS, WITHOUT WARRANTIES OR CONDITIONS OF ANY
+// KIND, either express or implied.  See the License for the
+// specific language governing permissions and limitations
+// under the License.
+
+//go:build verif
+
+package aucoalesce
+
+import "time"
+
+// VerifNewEntityCache builds an EntityCache whose lookups go to the given
+// functions instead of the system's user and group databases, so that a
+// verification harness can observe when the cache consults its backing store.
+func VerifNewEntityCache(expiration time.Duration, byID, byName func(string) string) *EntityCache {
+	return &EntityCache{
+		byID:   stringCache{expiration: expiration, data: map[string]stringItem{}, lookupFn: byID},
+		byName: stringCache{expiration: expiration, data: map[string]stringItem{}, lookupFn: byName},
+	}
+}
+
+// VerifHardcode pins an id/name pair in the cache like HardcodeUsers does for
+// the package-level caches.
+func (c *EntityCache) VerifHardcode(id, name string) {
+	c.byID.hardcode(id, name)
+	c.byName.hardcode(name, id)
+}
